@@ -5,7 +5,81 @@ V = os.path.dirname(os.path.dirname(os.path.abspath(__file__)))
 BASE = ("Trusted: Lean 4.33 kernel; axioms propext/Classical.choice/Quot.sound only (audited every run); the hand-written "
         "Lean model is tied to /repo by a differential correspondence run (Rust harness calling the real code vs the model's "
         "executable definitions) — the tie is testing, not proof. ")
+P = "Lean 4 proof over a hand-written model of the parser pipeline + differential correspondence (Rust harness vs model vs executable spec)"
 CLAIMED = {
+ "C01": dict(
+   text="Theorems: C01_parse_print (for every well-formed source tree of text / {{var}} / <comp> nested to any depth incl. same-name nesting and whitespace variants, "
+        "ParsedValue::new of its printing succeeds and denotes evalSrc of the source), C01_closing_tag_found (Dyck invariant of find_closing_tag), C01_reduce_sound/_shape/_total "
+        "(flattening keeps the denotation, never errs), C02_tuple_flatten (26-wide tuple chunking drops/reorders nothing). Correspondence: parser harness vs model on sources and token soup; "
+        "denotation of the implementation's final trees vs evalSrc for every string key of generated projects; compiled probe crates (load_locales!) rendering td_string!/td_display!/td! vs the denotation.",
+   note=BASE + "serde/json decoding, syn ident validity beyond ASCII, rustc/TypedBuilder/leptos rendering are trusted (probe crates exercise them). Strings outside the well-formed grammar are tied by correspondence only. No hooks.",
+   tech=P, ref="§6 C01, notes/C01.md, notes/C01Reduce.md"),
+ "C02": dict(
+   text="Theorems over a model of both code-generator back-ends (flatten / flatten_string, range match / if-chains, plural match, fit_in_leptos_tuple, EitherOfWrapper, per-locale dispatch, scoping): "
+        "C02_view_eq_denotation, C02_display_eq_denotation, C02_flavours_agree, C02_all_flavours (any two macro flavours / scoping depths naming the same locale and key path give the same text), "
+        "C02_scope_assoc/_chain, C02_dispatch_partition, C02_either_wrap_total, C02_codegen_total. Correspondence: compiled probe crates print 8 flavours (td_string!, td_display!, td!, t_string!, tu_string!, "
+        "chained scope_locale!/scope_i18n!) per key x locale x arguments; all must agree and equal the denotation.",
+   note=BASE + "The code-generator model is tied to the real generator only through the compiled probe crates (its output is Rust code); rustc's meaning of match/tuples/closures, leptos rendering, TypedBuilder are trusted. View flavour compared modulo ASCII spaces (leptos renders empty text nodes as a space).",
+   tech="Lean 4 proof over a model of the generated code + compiled probe crates", ref="§6 C02, notes/C02.md"),
+ "C03": dict(
+   text="Theorems: C03_default_of_eq_walk (default_of = the inheritance walk for every mapping: chains, forks, cycles, self-loops; fuel m.length+1 suffices), C03_compute_partition/_disjoint/_covers (match arms), "
+        "C03_mapping_iff (a locale is mapped iff its value is null/absent, all depths), C03_subkeys_uniform, C03_fallback_end_to_end (through check_locales_inner), C03_default_never_defaults. "
+        "Correspondence: effective locale reported by the real DefaultedLocales for every key x locale vs an independent walk over inherits and the files' presence pattern; exhaustive over all inherits maps on 4 locales x presence patterns in the thorough tier.",
+   note=BASE + "Foreign keys to a null/absent target jump to the default locale ignoring inherits (finding F11, outside this check's generator: fk disabled).", tech=P, ref="§6 C03, notes/C03.md"),
+ "C04": dict(
+   text="Theorems: C04_do_match_meaning (do_match = interval membership for every range shape, all ten types, exact decimals), C04_new_simple_int/_incl_int/_open_int/_float (what Range::new returns: a..b means x<=n<y via checked_sub, "
+        "InvalidBoundEnd iff y=MIN, ImpossibleRange iff empty), C04_new_never_empty, C04_match_first + C04_parse_time_eq_run_time (find_value = first matching branch = what the generated match renders), C04_count_for_cases (30 literal x type cases), "
+        "C04_fallback_rules, C04_seq_struct_agree, C04_count_shown. Correspondence: Range::new + membership for all 256 counts of i8/u8 and boundary neighbourhoods of wider/float types vs model vs the Rust meaning computed independently; "
+        "declarations with literal counts through foreign keys; probe crates at run time (thorough).",
+   note=BASE + "Floats are exact decimals in the model (generators avoid rounding ties); str::parse for floats is characterised only through the correspondence; non-ASCII digits / exponent spellings counted as unmodelled.", tech=P, ref="§6 C04, notes/C04.md"),
+ "C05": dict(
+   text="Theorems: C05_suffix_parse (is_possible_plural iff key = base(_ordinal)?_form), C05_cand_insert + C05_loop_candidate (same base+form twice = cardinal/ordinal clash -> error), C05_finish_group (merged iff >=2 candidates incl. other; errors InvalidKey / "
+        "ConflictingPluralRuleType / PluralsAtNormalKey in that order), C05_unused_forms, C05_render_plural + C05_parse_time_eq_run_time (form of the CLDR category else other, same at parse time and run time). "
+        "Correspondence: all form subsets x cardinal/ordinal x 10 locales (en fr ru ar pl ja cy ga he lt): merged keys, warnings, errors and the form rendered for counts 0..=200, 10^6, 1.5 via the ICU4X oracle.",
+   note=BASE + "CLDR plural rules (ICU4X compiled data) are an oracle, not verified. No whole-map statement for merge_plurals (per-group + loop invariant).", tech=P, ref="§6 C05, notes/C05.md"),
+ "C06": dict(
+   text="Theorems: C06_populate_subst (eval of populate v args = eval of v under the substituted environment: variables, literal counts fixing the branch, renamed counts; mutual induction over all value kinds), C06_populate_chain, "
+        "C06_resolveNode_sound, C06_resolved_no_notset, C06_resolve_missing/_cycle/_self_reference/_two_cycle, C06_populate_errors (subkey target rejected), C06_resolve_fuel_monotone, C06_order_independent_partial (memoisation lemma). "
+        "Correspondence: reference graphs (chains to depth 6, every argument kind, targets of every kind, namespaces, null targets) and all cyclic graphs on <=3 (4) keys: the referencing key's denotation = target's denotation under substitution.",
+   note=BASE + "Order independence of resolve_foreign_keys is proved at value level only (swap lemma over the whole world not proved: C06_order_independent_full_statement). Known finding F11/F20 (null/absent target in an inheriting locale) recorded.", tech=P, ref="§6 C06, notes/C06.md"),
+ "C07": dict(
+   text="Theorems: C07_builder_keys_eq_default, C07_merge_preserves_keys/_tree, C07_warnings_exact_flat/_nested, C07_check_warnings_exact (the warnings of check_locales_inner are exactly the spec list, in order), C07_no_warning_for_default, "
+        "C07_warnings_nodup_flat, C07_inherits_silences_missing, C07_suppress_silences_surplus, C07_subkey_mismatch_error. Correspondence: both feature builds (suppress_key_warnings on/off): emitted warnings as a multiset vs the set computed independently from the files.",
+   note=BASE + "Plural merging happens before check_locales and is covered by C05; key distinctness (BTreeMap invariant) is an explicit, proved-established hypothesis.", tech=P, ref="§6 C07, notes/C07.md"),
+ "C08": dict(
+   text="Theorems: C08_keys_exact (get_keys_inner adds exactly the occurrences of variables/formatters/components/counts), C08_count_conflicts (error iff two count kinds disagree), C08_union_over_locales + C08_required_arguments "
+        "(the key's fields = union over locales), C08_lit_kind (literal accessor iff every locale has a literal of one type). Correspondence: builder fields of the real parser vs the union of occurrences in each locale's final value; positive probe crate "
+        "(supplying exactly that set compiles and renders); negative probes (omit a member / unknown argument / unknown key must not compile).",
+   note=BASE + "`Compiles iff exactly that set is supplied` is TypedBuilder type-state: trusted, exercised by probe crates only.", tech=P, ref="§6 C08, notes/C08.md"),
+ "C09": dict(
+   text="Theorems: C09_parse_no_panic (for EVERY string ParsedValue::new's model reaches no panic outcome; fuel |s|+1 suffices: every recursive call is on a strictly shorter string, incl. decoded foreign-key arguments), C09_parse_fuel_irrelevant, "
+        "C09_depth_linear, C09_decode_no_panic, C09_slices_in_bounds_*, C09_range_new_total; with C01_reduce_ok_of_clean, C06_resolved_no_notset, C02_codegen_total for the later stages. Correspondence: parser, code generator (in-process) and build helper under catch_unwind on token soup, "
+        "byte-mutated files, past panic witnesses (F1-F7, F18, F19, F21) and generated projects; deep inputs in subprocesses.",
+   note=BASE + "Stack exhaustion is runtime behaviour the model cannot exhibit (only a linear depth bound is proved): known finding F8. Offsets are character offsets in the model; byte/char boundary safety is tied by the correspondence with multibyte characters next to every delimiter.",
+   tech=P + "; panic sites are explicit outcomes", ref="§6 C09, notes/C09.md"),
+ "C10": dict(
+   text="Theorems: C10_amap_perm (BTreeMap built from a permutation of entries with distinct keys is the same map), C10_locale_keys_perm (decoding an object is invariant under permutation of its entries when trimmed keys are distinct), "
+        "C10_duplicate_key_order_dependent (witness F13: \"a\" and \"a \" collide — why the hypothesis is there). The model is a pure function, which gives run-to-run determinism of what it covers. Correspondence: each project loaded twice, with permuted entries, "
+        "and written as JSON / JSON5 / YAML (three feature builds): identical keys, diagnostics and rendered text; generated code of two fresh generator processes identical.",
+   note=BASE + "YAML/JSON5 front-ends are oracles compared through the implementation's dumps. Keys equal after trimming (F13) make the result order-dependent: recorded finding, generators do not produce them.", tech=P, ref="§6 C10, notes/C10.md"),
+ "C11": dict(
+   text="Theorems: C11_push_str, C11_index_sound/_full (after index_strings every string literal carries an index i with table[i] = its text; table grows at the end, no duplicates), C11_table_length (count = table length for every locale; propagate gives nested subkey locales "
+        "their top locale's count, any depth), C11_locale_tables_partial (end-to-end for the default locale), C11_json_roundtrip (the exported file decodes to the same strings for ALL Unicode strings). Correspondence: invariants checked on every locale of generated projects; "
+        "build helper write_to_dir files decoded with a strict JSON reader (Lean spec) and serde_json.",
+   note=BASE + "End-to-end index validity through mergeKeys is proved for the default locale only (C11_locale_tables_full_statement unproved); other locales are covered by the correspondence.", tech=P, ref="§6 C11, notes/C11.md, notes/C11json.md"),
+ "C12": dict(
+   text="Lean theorems over a model of langid.rs (filter_matches/find_match): for all request lists and all supported sets the chosen "
+        "locale is supported, matches the first request any supported locale serves, is the exact match if one exists and otherwise a most "
+        "specific less-specific form; default when nothing matches; unparseable entries ignored (C12_find_match_acceptable and lemmas). "
+        "Correspondence: runtime harness path-includes the private langid.rs and runs filter_matches/find_match/find_locale/find_matchs on 4 "
+        "declare_locales! enums; model and executable spec are run on the same cases.",
+   note=BASE + "ICU4X LanguageIdentifier parsing is an oracle. No hooks.",
+   tech="Lean 4 proof (induction over request list, stable-sort head lemma) + differential correspondence", ref="§6 C12"),
+ "C13": dict(
+   text="Theorems over a model of the generated Locale enum: C13_from_str_iff (from_str s = l iff trim s = name l), C13_from_str_as_str, C13_not_a_name (non-names parse to none / serde default), C13_serde_roundtrip (serde + cookie codec), "
+        "C13_get_all, C13_default_first_perm, C13_config_new_wf, C13_all_representations. Correspondence: 5 locale sets (regions, scripts, variants, near-duplicates, RTL, default listed last / not listed) via declare_locales! and load_locales!: every identity method vs model vs ICU4X oracle; "
+        "~11k strings around every name (case, 25 White_Space chars, prefixes, suffixes).",
+   note=BASE + "ICU locale / langid / direction are computed by ICU4X at macro time: oracle (direct ICU4X calls + CLDR excerpt). Scoped-wrapper theorems are thin.", tech="Lean 4 proof + differential correspondence", ref="§6 C13, notes/C13.md"),
  "C14": dict(
    text="Lean theorems over a model of routing.rs path functions (PathBuilder, get_locale_from_path, get_new_path, localize_path, match/construct_path_segments): "
         "a locale is read iff the first segment after the base equals a locale name (C14_locale_from_path_iff); switching preserves every non-locale, non-localized "
@@ -31,6 +105,23 @@ CLAIMED = {
         "declare_locales! enums; model and executable spec are run on the same cases.",
    note=BASE + "ICU4X LanguageIdentifier parsing is an oracle. No hooks.",
    tech="Lean 4 proof (induction over request list, stable-sort head lemma) + differential correspondence", ref="§6 C12"),
+ "C17": dict(
+   text="Theorems: C17_embed_decode (decoding the embedded JS literal gives back exactly the units, for ALL unit lists and ALL Unicode strings), C17_embed_no_lt / C17_embed_script_safe (no `<`, hence no </script or <!--), "
+        "C17_register_exact / _order_insensitive / _untouched (registered set = units touched by the render history). Correspondence: the real RegisterCtx::{provide_context, register, to_array} with runtime strings fed through a StringArray handle, 1-3 concurrent renders; output judged by the Lean decoder and serde_json.",
+   note=BASE + "The browser's JS parser ~ the JS-literal decoder of the spec; hydrate-side wasm code and <I18nContextProvider> rendering not executed. Locale names / unit ids are pushed unescaped (identifiers): explicit hypothesis UnitNamesOk.", tech="Lean 4 proof (encoder/decoder round trip by induction) + differential correspondence", ref="§6 C17, notes/C17.md"),
+ "C18": dict(
+   text="Theorems: C18_formatter_args (from_name_and_args = the documented option table: first recognised occurrence else default), C18_unknown_option_ignored, C18_whitespace_insensitive, C18_unknown_name, C18_t_format_agrees (file syntax and t*_format! agree), "
+        "C18_cache_memo / _commutes / _threads (every request served make(key) whatever the history or schedule of atomic steps). Correspondence: exhaustive option product x whitespace variants through the real parser; formatted output vs direct ICU4X calls on 8 locales; request histories in one process; 16-thread races (support).",
+   note=BASE + "ICU4X output is the oracle (no theorem); RwLock atomicity and leaked formatters trusted. Known finding C18-zone: time_length full|long cannot be rendered.", tech="Lean 4 proof + differential correspondence + ICU4X oracle", ref="§6 C18, notes/C18.md"),
+ "C19": dict(
+   text="Theorems over Config.new: C19_default_first (default first, present, no duplicates, set = listed + default), C19_duplicates_rejected, C19_inherits_valid / _unknown_rejected / _default_inherits_rejected, C19_required_fields, C19_unknown_ignored, "
+        "C19_files_read(_order) (exactly the (namespace, locale) files in configuration order). Correspondence: ConfigFile::new on ~3k generated manifests (exhaustive locale lists <=3 over 4 names x 3 defaults) vs model vs independent spec; tracked files for generated layouts x 3 formats.",
+   note=BASE + "The TOML parser is an oracle (model starts from the decoded table); `rest of Cargo.toml ignored` is tied by the correspondence only.", tech=P, ref="§6 C19, notes/C19.md"),
+ "C20": dict(
+   text="Theorems over a model of find_used_datakey: C20_options_iff / C20_plurals_iff / C20_formatter_iff (option in the set iff some builder key records a plural count / a formatter of that family, any subkey depth, all namespaces), "
+        "C20_key_uses_iff (with C08: iff some locale's value of that key contains such a node at any depth). Correspondence: build helper parse_at_dir + get_icu_keys + get_locales + get_namespaces on projects placing plurals/formatters only in a non-default locale / subkeys / via foreign key / one namespace: "
+        "data keys = union of the used options' keys; locales = configured ones.",
+   note=BASE + "Whole-pipeline statement (C20_full_statement) and locales equality are unproved defs: tied by correspondence. That the data keys suffice for ICU4X at run time depends on ICU's tables (oracle).", tech=P, ref="§6 C20, notes/C20.md"),
 }
 PENDING = {}
 def main():
